@@ -82,6 +82,7 @@ def oracle_c16(world, result):
     ok_struct = _common_checks(world, out, V)
     rb = world["return_best"]
     P["return_best"] = int(rb)
+    P["enumerated_block"] = int(bool(world.get("enumerated")))
     P["show_progress"] = int(world.get("show_progress", False))
 
     if world["loop"] == "vi":
